@@ -40,14 +40,14 @@ def programs(ck):
   add('probe', '@Engine("sqlite");\nT(1, 2, 3);\nR(a*(b+c)) :- T(a, b, c);\nS(x) :- T(a, b, c), x == a%(b/c), a^2 > 0;\n', ['R', 'S'])
   add('incantation', '@Engine("sqlite");\n# %s\nT(1, 2, 3);\nR(a * (b + c)) :- T(a, b, c);\n' % INCANTATION, ['R'])
   add('failing', '@Engine("sqlite");\nR(x) :- T(x;\n', ['R'])
-  for i in range(ck.budget(14, 200)):
+  for i in range(ck.budget(9, 200)):
     pr = G.Gen(rng).generate()
     add('generated', pr.text(), [p.name for p in pr.preds if p.kind != 'facts'][:3], reuse=True)
   for i in range(ck.budget(6, 80)):
     pr = G.Gen(rng, G.Gen.ALL - {'lists', 'records'}).generate()
     eng = rng.choice(['duckdb', 'psql', 'bigquery'])
     add('typed-' + eng, pr.text().replace('@Engine("sqlite");', '@Engine("%s");' % eng), [p.name for p in pr.preds if p.kind != 'facts'][:2])
-  for i in range(ck.budget(10, 120)):
+  for i in range(ck.budget(8, 120)):
     pr = c03.gen_case(rng)
     preds = list(pr.query)
     add('recursion:' + pr.info['shape'], pr.text(), preds)
@@ -72,7 +72,7 @@ def programs(ck):
                  glob.glob(os.path.join(core.REPO, 'integration_tests', 'duckdb_*.l')) +
                  glob.glob(os.path.join(core.REPO, 'integration_tests', 'psql_*.l')))
   if ck.tier != 'thorough':
-    files = rng.sample(files, min(len(files), 30))
+    files = rng.sample(files, min(len(files), 14))
   for f in files:
     add('integration:' + os.path.basename(f), open(f).read(), ['Test'], import_root=core.REPO)
   return jobs
@@ -95,7 +95,7 @@ def run(ck):
   # split the corpus into shards so that 16 processes are busy; every shard is compiled under every seed
   nshards = 4
   shards = [ids[i::nshards] for i in range(nshards)]
-  seeds = [0, 1, 2, 3, 17, 1234] if ck.tier != 'thorough' else list(range(16))
+  seeds = [0, 1, 2, 3, 1234] if ck.tier != 'thorough' else list(range(16))
   tasks = []
   for si, shard in enumerate(shards):
     for seed in seeds:
